@@ -28,15 +28,16 @@ LEAN_TARGETS = ["TsrunVerif.Props.C01"]
 THEOREMS = ["TsrunVerif.Ops." + t for t in [
     "numEq_symm", "strictEq_symm", "looseEq_symm", "looseEq_of_strictEq", "nan_never_equal", "null_looseEq_iff", "typeOf_closed",
     "plus_string_left", "plus_string_right", "add_comm", "neg_neg", "lt_irrefl", "nan_relational_false", "not_not",
-    "unary_plus_forms", "neg_eq_mul_minus_one", "neg_ne_zero_minus", "swapped_relational", "negated_equality", "le_is_not_gt"]] + \
+    "unary_plus_forms", "neg_eq_mul_minus_one", "neg_ne_zero_minus", "swapped_relational", "negated_equality", "le_is_not_gt",
+    "toInt32_range", "toUint32_toInt32", "bitor_zero", "double_not", "ushr_zero_idem", "bitwise_comm", "shift_count_mod32"]] + \
     ["TsrunVerif.Ctl." + t for t in [
         "finally_normal_keeps_pending", "finally_abrupt_overrides", "catch_binds_thrown", "loop_break_own_label",
         "loop_break_foreign_label", "tdz_shadows_outer"]]
 ASSUMPTIONS = [
     "M-Ops is a transcription of ECMA-262 (ToBoolean, ToNumber, ToString, typeof, unary + - !, Number::add/subtract/multiply, IsLessThan, IsLooselyEqual, IsStrictlyEqual, "
     "ApplyStringOrNumericBinaryOperator for +, the short-circuit operators) over undefined, null, booleans, ASCII strings and the numbers NaN, +-Infinity, -0 and integers below 2^53 "
-    "(arithmetic exact there); string-to-number covers decimal integers, 0x hex, Infinity and whitespace trimming. Objects, symbols, bigint, fractions, / % ** and the bitwise operators are not in the model "
-    "(fractions and bitwise operators: M-Num of C15); they are compared with the reference engine instead",
+    "(arithmetic exact there); string-to-number covers decimal integers, 0x hex, Infinity and whitespace trimming. Objects, symbols, bigint, fractions and / % ** are not in the model "
+    "(fractions: M-Num of C15); they are compared with the reference engine instead",
     "M-Ctl is a small-step-free (fuel-structural) definitional interpreter for blocks, let with temporal dead zone, assignment, if, labelled while with break/continue, labelled blocks, switch with fall-through and default, "
     "return, throw, try/catch/finally with ECMAScript completion records, over integer values; the program generator is written in Lean next to it and its programs are rendered to JavaScript text",
     "the reference engine is node (V8) when present, run in a fresh vm context per program; otherwise the golden outputs recorded from node. Where the specification leaves a result implementation-defined or "
@@ -240,9 +241,16 @@ def part_ops(ctx, ref):
     """CORR: M-Ops == tsrun (== reference) on primitive operands x modelled operators"""
     operands = corpus.model_operands(ctx.rng, 24 if ctx.tier == "quick" else 90)
     lines, exprs = [], []
+    def intval(t):
+        try:
+            return int(t[1:]) if t[0] == "n" else None
+        except ValueError:
+            return None
     for op in corpus.MODEL_BIN:
         for a in operands:
             for b in operands:
+                if op == "*" and intval(a) is not None and intval(b) is not None and abs(intval(a) * intval(b)) >= 2 ** 53:
+                    continue        # outside the model's exact range (doubles round there): M-Num / C15 territory
                 lines.append("B\t%s\t%s\t%s" % (op, a, b))
                 exprs.append("(%s) %s (%s)" % (corpus.token_js(a), op, corpus.token_js(b)))
     for op in corpus.MODEL_UN:
